@@ -587,6 +587,12 @@ func runC09(tier string, _ []string) int {
 			c.Inconclusive(err.Error())
 			return
 		}
+		ownIDs := map[string]bool{} // nodes the fresh instance holds by itself (the default admin user below the root)
+		if w0, err := vlib.Walk(nc); err == nil {
+			for _, pl := range w0 {
+				ownIDs[pl.ID] = true
+			}
+		}
 		d := newGdriver(r, nc, in.RootID, fmt.Sprintf("b%d", bi))
 		d.Finite = true // a listing holding +-Inf fails JSON encoding (405), which is not an auth matter
 		type userRec struct{ id, email, pass string }
@@ -786,6 +792,12 @@ func runC09(tier string, _ []string) int {
 				for _, uid := range liveUsers {
 					for _, p := range d.g.Parents(uid, false) {
 						addSub(p)
+					}
+				}
+				if allowed[in.RootID] {
+					// attached to the instance root: the whole tree, including what the instance created itself
+					for id := range ownIDs {
+						allowed[id] = true
 					}
 				}
 				for _, n := range listed {
